@@ -120,6 +120,19 @@ impl Property for C11 {
                 p.terms.push(monomial(vec![b, a, a], -c));
             }
         }
+        // coefficients spanning many orders of magnitude (a huge penalty weight next to ordinary terms)
+        if regime == Regime::R && rng.chance(1, 4) {
+            let mut terms = stored_terms(&f);
+            let huge = *rng.pick(&[1e17, -1e17, 1152921504606846976.0, 3e18]);
+            let d = 1 + rng.usize_below(2);
+            terms.push(((0..d).map(|_| *rng.pick(&ids)).collect(), huge));
+            terms.push((vec![*rng.pick(&ids)], 1.0));
+            if rng.bool() {
+                terms.push((vec![], 1.0));
+            }
+            rng.shuffle(&mut terms);
+            f = f_polynomial(polynomial(terms));
+        }
         inst.objective = if rng.chance(1, 20) { None } else { Some(f) };
         if rng.chance(1, 4) {
             let c = constraint(3, LE_ZERO, Some(f_linear(linear(vec![(ids[0], 1.0)], -1.0))));
